@@ -5,6 +5,7 @@ pub mod evidence;
 pub mod exprgen;
 pub mod fmtcheck;
 pub mod front;
+pub mod lsphist;
 pub mod mutate;
 pub mod pipeline;
 #[cfg(feature = "pgen")]
